@@ -22,6 +22,7 @@ func init() {
 			"number tokens are evaluated by strconv.ParseFloat; fetchContainers lists the containers anew for every selector",
 			"ERR-CHAIN/OWN-WRAP of the operand iterators; precedence classes; the scalar operand carries each sample's own label set",
 			"PV-ONCE step transformers read one inner step per outer step (the two sides stay aligned)",
+			"PV-ONCE both sides of a binary step iterator advance on every reported step",
 		},
 		NotDecided: []string{"floating-point results", "per-step alignment of the two sides beyond 'built with the same parameters'"},
 		Rules: func(r *Run) {
@@ -48,6 +49,7 @@ func init() {
 			ruleLiteralOperandPerSample(r)
 			ruleBuildDescendsOneLevel(r)
 			ruleOneInnerStepPerStep(r)
+			ruleBothSidesAdvance(r)
 		},
 	})
 }
